@@ -47,7 +47,8 @@ def _spec(rng, kind, names):
         spec["include"] = {"kind": "all"}
     elif kind == "Transformations":
         spec["kwargs"] = {"OffsetX": rng.choice([0, 10, -20, 12.5]), "OffsetY": rng.choice([0, 0, 8]),
-                          "ScaleX": rng.choice([100, 100, 50, 200]), "ScaleY": rng.choice([100, 100, 50])}
+                          "ScaleX": rng.choice([100, 100, 50, 200]), "ScaleY": rng.choice([100, 50, 50, 200]),
+                          "Origin": rng.choice([4, 0, 1, 2, 3])}
     elif kind == "CubicToQuadratic":
         spec["kwargs"] = {"reverseDirection": rng.random() < 0.5}
     elif kind == "DottedCircle":
@@ -70,7 +71,8 @@ def cases(tier, seed):
             kinds = ["line", "cubic"] if kind in ("RemoveOverlaps",) else None
             glyphs = gen.glyphset(rng, kinds=kinds, unicodes=(kind == "DottedCircle"))
             names |= set(glyphs)
-            info = {"capHeight": 700, "xHeight": 500}
+            # per-font metrics differ, so that anything a filter object derives from one font and keeps shows on the next
+            info = {"capHeight": rng.choice([700, 600, 720, 701]), "xHeight": rng.choice([500, 420, 480, 499])}
             if interp:
                 steps.append({"masters": [glyphs, gen.perturb_master(rng, glyphs, drop=rng.choice([0, 0, 0.2]))], "info": info})
             else:
